@@ -119,6 +119,16 @@ class G:
         return {"op": op, "args": [cur]}, shape, pos
 
 
+TRANSCENDENTAL = {"exp", "log", "softplus", "sigmoid", "scaled_sigmoid", "softmax", "log_softmax", "reduce_lse",
+                  "gauss_mean", "gauss_stddev", "gauss_logpart"}
+
+
+def graph_ops(d):
+    if "args" not in d:
+        return []
+    return [d["op"]] + [o for a in d["args"] for o in graph_ops(a)]
+
+
 def gen_graph(rng: random.Random, forced=()):
     cplx = rng.random() < 0.25
     g = G(rng, cplx)
@@ -316,7 +326,11 @@ def run_scenario(run: Run, scen: dict, rng: random.Random):
             else:
                 gg = float(np.real(g)); ee = float(e)
                 # leaf values are O(1) dyadics: an absolute floor of 1e-12 absorbs x - log(exp(x)) style round-off
-                ok = (gg == ee) or abs(gg - ee) <= 1e-9 * abs(ee) + 1e-12
+                # every transcendental operator on the path multiplies the relative error by the size of its argument
+                # (and torch's softplus switches to the identity above 20): 1e-9 for one such operator, up to 1e-6
+                nt = sum(1 for o_ in graph_ops(s["graph"]) if o_ in TRANSCENDENTAL)
+                rtol = min(1e-6, 1e-9 * 30 ** max(0, nt - 1))
+                ok = (gg == ee) or abs(gg - ee) <= rtol * abs(ee) + 1e-12
                 if np.isnan(gg) and np.isnan(ee):
                     ok = True  # outside the domain of the operator (log of a negative entry) in both
                     run.feature("outside_domain_in_both", True)
